@@ -5,10 +5,10 @@ ENTRY = {'coq_dir': 'C05',
  'harness': 'c05',
  'cases': {'quick': 1500, 'thorough': 400000},
  'consts': [],
- 'rule': 'TWO STREAMS. (1) Manager stream: adaptive seeded event histories (5-60 events quick, 10-120 thorough) against the real '
-         'TransportManager with TWO scripted transports (TCP and WebSocket; 70% of the cases install both, the others TCP only '
-         'or WebSocket only) and through the real user-facing TransportManagerHandle: dial requests by peer (manager.dial, and '
-         'handle.dial whose command travels over the real command channel and is executed by next()), by address '
+ 'rule': 'THREE STREAMS. (1) Manager stream: adaptive seeded event histories (5-60 events quick, 10-120 thorough) against the '
+         'real TransportManager with TWO scripted transports (TCP and WebSocket; 70% of the cases install both, the others TCP '
+         'only or WebSocket only) and through the real user-facing TransportManagerHandle: dial requests by peer (manager.dial, '
+         'and handle.dial whose command travels over the real command channel and is executed by next()), by address '
          '(manager.dial_address, handle.dial_address), address additions (handle.add_known_address) of a tcp and/or a /ws '
          'address per peer, open outcomes per (connection id, transport) in every order (fail/fail, fail/opened, opened first, '
          'inbound connection wins while both transports are owed), negotiate outcomes, inbound connections (ids drawn from the '
@@ -22,27 +22,36 @@ ENTRY = {'coq_dir': 'C05',
          "address, a peer's canonical address). After every event the calls each transport saw (tagged with the transport), "
          'protocol notifications, manager events (OpenFailure with its error count), return code and a dump of peer states '
          '(Opening with its transport mask) / address book by kind / pending / counted sets / opening_errors are compared with '
-         'the extracted Coq model. (2) TCP transport stream (one case in 10 quick / 400 thorough, first number 9000; '
-         'harness/src/c05_tcp.rs): the REAL TcpTransport (VerifTcpTransport facade) is driven over loopback sockets through its '
-         'Transport trait and Stream::poll_next with adaptive call sequences (5-40 steps quick, 8-70 thorough, '
-         'max_parallel_dials from {8,1,2,3}): ids drawn from the shared counter, dial, open with 0-5 addresses, negotiate (incl. '
-         'the manager pattern cancel+negotiate without a poll between), cancel before / after completion, accept / reject, '
-         'inbound sockets with accept_pending / reject_pending, polls; 15% of the cases also reuse or invent ids. Every address '
-         'points at a gate (a loopback listener that connects through to one of two further real TcpTransport nodes A, B with '
-         'different identities, holds the bytes and is released by the harness: pass or close), at a closed port, or is '
-         'malformed, and independently NAMES a peer (none, A, B, nobody): listeners that complete the noise/yamux handshake, '
-         'stall, close at once, or answer with a different identity than the address names (on the dial path and on the '
-         'open+negotiate path, also as the first of several addresses); 3% of the cases instead use a 250 ms '
-         'connection_open_timeout and let a stalled dial, a stalled open and the overall open deadline time out. The harness '
-         'ends one attempt at a time (the completion order of the inner futures is decided by construction) and feeds that order '
-         'to the model as events; after every step the call result, the TransportEvents polled (kind, connection id, '
-         'authenticated peer), the warn/debug lines of the branches of poll_next that drop a future (log tap) and a dump of '
-         'pending_dials / pending_inbound_connections / opened / cancel_futures (with is_aborted) / pending_open and the lengths '
-         'of the two future sets are compared with the extracted Coq model (coq/Tcp). prop_ok of this stream is the transport '
-         "contract judged on the implementation's own trace: open-phase events only for an owed open, outbound "
-         'ConnectionEstablished / DialFailure only for an owed negotiate, ConnectionEstablished names a peer the address of that '
-         'id names, negotiate succeeds exactly on an opened id, no owed answer is dropped, inbound ids come from the shared '
-         'counter. Non-trivial: trace >= 8 numbers; distinct (case, trace) pairs are counted.',
+         'the extracted Coq model. (2) transport streams (harness/src/c05_tcp.rs; first number 9000 TCP / 9001 WebSocket / 9002 '
+         'QUIC; one TCP and one WebSocket case in 20 quick / 1000 thorough; QUIC: the aux stream of the thorough tier, the '
+         'harness built a second time with --features quic, 300 cases + corpus/C05-quic): the REAL TcpTransport / '
+         'WebSocketTransport / QuicTransport (VerifTcpTransport / VerifWsTransport / VerifQuicTransport facades) is driven over '
+         'loopback sockets through its Transport trait and Stream::poll_next (polled until Pending without a self-wake) with '
+         'adaptive call sequences (5-40 steps quick, 8-70 thorough, max_parallel_dials from {8,1,2,3}): ids drawn from the '
+         'shared counter, dial, open with 0-5 addresses, negotiate (incl. the manager pattern cancel+negotiate without a poll '
+         'between), cancel before / after completion, accept / reject, inbound connections with accept_pending / reject_pending, '
+         'polls; 15% of the TCP / WebSocket cases also reuse or invent ids (QUIC cases keep to owners that draw their ids, see '
+         'level_note). Every address is built in the shape of the transport under test and points at a gate (a loopback TCP '
+         'listener / UDP relay that connects through to one of two further real transports of the same kind, nodes A and B with '
+         'different identities, holds the bytes and is released by the harness: pass or close), at a closed port, is malformed, '
+         'is a well-formed address of ANOTHER transport (ws-shaped for TCP, tcp-shaped for WebSocket / QUIC), or (WebSocket) is '
+         'a /wss address, and independently NAMES a peer (none, A, B, nobody): an address without /p2p is an attempt for TCP and '
+         'is refused by WebSocket / QUIC; listeners that complete the handshake, stall, close at once, or answer with a '
+         'different identity than the address names (on the dial path and on the open+negotiate path, also as the first of '
+         'several addresses); 3% of the cases instead use a 250 ms connection_open_timeout and let a stalled dial, a stalled '
+         'open and (TCP, WebSocket) the overall open deadline time out. The harness ends one attempt at a time (the completion '
+         'order of the inner futures is decided by construction) and feeds that order to the model as events; the model side '
+         'builds the same multiaddresses in the C10 grammar (coq/Tcp/Glue.v addr_of) and decides with expect_of of '
+         'coq/Tcp/Variants.v whether the transport takes them; after every step the call result, the TransportEvents polled '
+         '(kind, connection id, authenticated peer, endpoint direction), the warn/debug lines of the branches of poll_next that '
+         'drop a future (log tap) and a dump of pending_dials / pending_inbound_connections / opened (opened_raw) / '
+         'cancel_futures (with is_aborted) / pending_open and the lengths of the two future sets are compared with the extracted '
+         'Coq model (coq/Tcp). A panic of the implementation ends the case with the panic marker as its trace. prop_ok of these '
+         "streams is the transport contract judged on the implementation's own trace: open-phase events only for an owed open, "
+         'outbound ConnectionEstablished (dialer endpoint) / DialFailure only for an owed negotiate, ConnectionEstablished names '
+         'a peer the address of that id names, dial succeeds exactly on an address the transport parses, negotiate succeeds '
+         'exactly on an opened id, no owed answer is dropped, inbound ids come from the shared counter. Non-trivial: trace >= 8 '
+         'numbers; distinct (case, trace) pairs are counted.',
  'level_text': 'Proof: the dial ledger is an inductive invariant (LInv) of the manager model over every event history the '
                'transport contract allows and every configuration (limits, installed transports), with dial attempts owed by '
                "SEVERAL transports in parallel: every pending attempt is owed an answer and is its peer's dial record, the "
@@ -75,60 +84,99 @@ ENTRY = {'coq_dir': 'C05',
                'pending future; (e) ids: outbound ids come from the owner, inbound ids are the next counter value; identity: an '
                'outbound ConnectionEstablished names a peer the addresses of that id name (an answer by another identity ends in '
                "a failure). (b), (d), (e) assume the owner's hygiene caller_ok (ids passed to dial/open were drawn from the "
-               'shared counter and are used once), shown necessary by a witness. That model is tied to tcp/mod.rs by the TCP '
-               'stream. COMPOSITION (coq/C05/TcpCompose.v, theorems C05_sys_*): the manager model and the TcpTransport model are '
-               'plugged into each other — every call the manager model makes (open with the addresses of the dialled peer, dial, '
-               'negotiate, cancel, accept, reject, accept_pending, reject_pending, and next_connection_id as a draw from the '
-               'shared counter) is executed by the TCP model, every event a poll of the TCP model emits is handled by the '
-               'manager model one after the other (its calls executed before the next event is handled; the negotiate / accept '
-               "results the handlers see are the TCP model's), with TCP as the one installed transport. For EVERY history of "
-               'outside inputs (user / protocol side: dial requests by peer and by address incl. through the handle, address '
-               'additions, closed connections, accept futures; network / runtime: a socket arrives, an attempt of a pending '
-               'future ends with an identity or fails, a deadline fires, a poll) the manager is handed an event history that '
-               'satisfies the transport contract `feas` (C05_sys_feasible, C05_sys_step; proof: a coupling invariant between the '
-               "manager's ledger and the ledger of the TCP contract — what the manager thinks TCP owes is what TCP's ledger "
-               'says, same peer named, same counter — kept while the events of one poll are delivered one by one, using the '
-               "C05_tcp contract theorems, commutation of the manager's calls with the events not delivered yet, and the shape "
-               'of a poll: events about inbound sockets come last). Hence C05_sys_at_most_one_outcome, C05_sys_no_silence, '
-               'C05_sys_no_wedge, C05_sys_no_stuck hold for manager + TCP together with NO assumption about the transport; what '
-               'is still assumed is only the part of `feas` about the address store (choice_ok), the protocols (accept futures '
-               'succeed) and that open() / dial() of a shape-checked address return Ok (true in the TCP model). The network '
-               "assumption is explicit: quiescence is a statement about the TCP model's own ledger (C05_sys_quiescent), whatever "
-               'the manager waits for is backed by a pending un-cancelled future of the TCP model (C05_sys_owed_is_pending), and '
-               'for each such id there is an allowed network / runtime input — the deadline of the open fires, the dial attempt '
-               'ends, the transport is polled — whose handling hands the manager an answer for that id (C05_sys_progress): the '
-               'only liveness assumption left is that the network lets every pending future end (answer, failure or timeout) and '
-               'the runtime polls the transport.',
+               'shared counter and are used once), shown necessary by a witness. Over whole histories (Once.v, a token argument '
+               'on the ghost state): an id is answered by at most one of ConnectionOpened / OpenFailure and by at most one of '
+               'outbound ConnectionEstablished / DialFailure, what is still owed has not been answered, nothing is answered for '
+               'an id the owner never passed in. Never silence (Settle.v, a measure argument over owed opens + owed negotiates + '
+               'addresses still being tried, using the progress theorems): from every reachable state the environment has a '
+               'finite schedule of attempts ending and polls after which nothing is owed, and an environment event takes an id '
+               'out of the owed sets only by emitting its answer; a refused dial changes nothing and an open none of whose '
+               'addresses the transport takes is answered by OpenFailure at the next poll. The SAME contract is proved for '
+               'WebSocketTransport and QuicTransport (C05_tr_* / C05_ws_* / C05_quic_*): the three transports keep the same '
+               'books with the same poll_next, and differ in their front end, which is modelled per transport over the '
+               'multiaddress grammar of coq/C10 (Variants.v: expect_of = which addresses dial accepts and which addresses of an '
+               'open become attempts: TCP multiaddr_to_socket_address, optional /p2p; WebSocket multiaddr_into_url, /ws|/wss and '
+               '/p2p required; QUIC get_socket_address, /quic-v1 and /p2p required; QUIC has no overall open deadline); every '
+               'history of a transport is a history of the bookkeeping model (refinement C05_tr_refines_model), so (a)-(e), the '
+               'progress theorems and the at-most-once theorems hold per transport; in addition: dial returns Ok exactly on an '
+               'address the transport parses, open never fails, every address TransportManager can hand over (the shapes '
+               'dial_address lets through, coq/Mgr/DialShape.v; the `supported` addresses of the store, routed by `route`) is '
+               'accepted by the transport it is routed to and the expected peer is the dialled one, WebSocket and QUIC report an '
+               'outbound connection only for a peer an address names literally. The model is tied to tcp/mod.rs, '
+               'websocket/mod.rs and quic/mod.rs by the transport streams. COMPOSITION (coq/C05/TcpCompose.v, theorems '
+               'C05_sys_*): the manager model and the TcpTransport model are plugged into each other — every call the manager '
+               'model makes (open with the addresses of the dialled peer, dial, negotiate, cancel, accept, reject, '
+               'accept_pending, reject_pending, and next_connection_id as a draw from the shared counter) is executed by the TCP '
+               'model, every event a poll of the TCP model emits is handled by the manager model one after the other (its calls '
+               "executed before the next event is handled; the negotiate / accept results the handlers see are the TCP model's), "
+               'with TCP as the one installed transport; coq/C05/TrCompose.v (theorems C05_sysT_*) is the same composition with '
+               'the transport tag abstracted: it holds for ANY ONE installed transport, in particular WebSocket alone, and '
+               'C05_sysT_calls_are_real / C05_sysT_transport_side_is_its_model say that the bookkeeping model inside the '
+               'composed system is the model of that transport (coq/Tcp/Variants.v) run on the real trait calls with the '
+               'canonical addresses of the dialled peer. For EVERY history of outside inputs (user / protocol side: dial '
+               'requests by peer and by address incl. through the handle, address additions, closed connections, accept futures; '
+               'network / runtime: a socket arrives, an attempt of a pending future ends with an identity or fails, a deadline '
+               'fires, a poll) the manager is handed an event history that satisfies the transport contract `feas` '
+               "(C05_sys_feasible, C05_sys_step; proof: a coupling invariant between the manager's ledger and the ledger of the "
+               "TCP contract — what the manager thinks TCP owes is what TCP's ledger says, same peer named, same counter — kept "
+               'while the events of one poll are delivered one by one, using the C05_tcp contract theorems, commutation of the '
+               "manager's calls with the events not delivered yet, and the shape of a poll: events about inbound sockets come "
+               'last). Hence C05_sys_at_most_one_outcome, C05_sys_no_silence, C05_sys_no_wedge, C05_sys_no_stuck hold for '
+               'manager + TCP together with NO assumption about the transport; what is still assumed is only the part of `feas` '
+               'about the address store (choice_ok), the protocols (accept futures succeed) and that open() / dial() of a '
+               'shape-checked address return Ok (true in the TCP model). The network assumption is explicit: quiescence is a '
+               "statement about the TCP model's own ledger (C05_sys_quiescent), whatever the manager waits for is backed by a "
+               'pending un-cancelled future of the TCP model (C05_sys_owed_is_pending), and for each such id there is an allowed '
+               'network / runtime input — the deadline of the open fires, the dial attempt ends, the transport is polled — whose '
+               'handling hands the manager an answer for that id (C05_sys_progress): the only liveness assumption left is that '
+               'the network lets every pending future end (answer, failure or timeout) and the runtime polls the transport.',
  'level_note': 'Trusted: Coq kernel, extraction, harness + ScriptedTransport hooks. Transport contract `feas` (calls succeed, '
                'each open is answered once per transport unless cancelled on it, cancel is effective, accept futures succeed, '
-               'events come from installed transports) is an assumption of the C05 ledger theorems for WebSocket; for TCP it is '
-               'a theorem (see below); two of the three transports (TCP, WebSocket) are installed, QUIC is compiled out of the '
-               'harness build; the address book is abstracted to the set of stored addresses (which of them '
-               'AddressStore::addresses(limit) hands out is an input validated by choice_ok; scores are C10; fewer than 64 '
-               'addresses per peer so that no eviction happens); the handle call and the execution of its command happen in one '
-               'step (the asynchronous gap between them is not modelled: C05_handle_gate_agrees is about the same state); '
+               'events come from installed transports) is an assumption of the C05 ledger theorems; it is a THEOREM about the '
+               'transport models of all three socket transports (C05_tcp_* / C05_tr_*, see below), and the composition with the '
+               'manager model is proved for any one installed transport (C05_sys_* for TCP, C05_sysT_* for any tag); in the '
+               'manager stream two of the three transports (TCP, WebSocket) are installed as scripted transports, QUIC is '
+               'compiled out of the default harness build; the address book is abstracted to the set of stored addresses (which '
+               'of them AddressStore::addresses(limit) hands out is an input validated by choice_ok; scores are C10; fewer than '
+               '64 addresses per peer so that no eviction happens); the handle call and the execution of its command happen in '
+               'one step (the asynchronous gap between them is not modelled: C05_handle_gate_agrees is about the same state); '
                'ChannelClogged is modelled as a possible result (clog) but never driven; `.await` on full protocol channels '
-               'inside the DialFailure fan-out is not modelled. For TCP the contract is no longer an assumption, it is proved '
-               'for the model coq/Tcp and tied to tcp/mod.rs by the TCP stream; still assumed there: the negotiation '
-               '(connection.rs negotiate_connection) authenticates the remote and honours its dialed_peer argument (exercised '
-               'with real handshakes, not modelled), timeouts fire (connection_open_timeout / the dial deadline are the model '
-               'events "attempt failed" / EExpire; 3% of the TCP cases and corpus/C05/tcp_timeouts.case run with a 250 ms '
-               'timeout and end one future at a time by waiting, all other cases use 60 s timeouts that never fire), tokio wakes '
-               'ready futures, the OS delivers socket events, the listener does not terminate; the composition of the TCP model '
-               'with the manager model is PROVED (C05_sys_*) for configurations with TCP as the only installed transport; in it '
-               'the owner hygiene caller_ok of the TCP theorems is discharged (the manager draws every id it passes to open / '
-               'dial from the shared counter right before the call, at most one such call per step: Mgr/Calls.v), the glue is '
-               'part of the statement: all addresses of one open / dial call name the dialled peer (every stored address ends in '
-               "/p2p/<peer>; C10), a dial address that passed the manager's shape check parses in TCP (valid = true), a failure "
-               "event carries an address of the call (the peer is read from the TCP ledger's g_att), one poll = poll_next until "
-               'Pending with the manager handling the batch in order (the granularity at which the TCP model is tied to '
-               'tcp/mod.rs); for a second transport (WebSocket) the contract stays the assumption `feas`; "accept futures '
-               'succeed" is still an assumption; WebSocket / quic: contract still by reading.',
+               'inside the DialFailure fan-out is not modelled. For TCP, WebSocket and QUIC the contract is no longer an '
+               'assumption: it is proved for the model coq/Tcp (+ the per-transport front ends of Variants.v) and tied to '
+               'tcp/mod.rs, websocket/mod.rs (quick + thorough tier) and quic/mod.rs (thorough tier only: aux stream, harness '
+               'built with --features quic) by the transport streams; still assumed there: the negotiation (connection.rs '
+               'negotiate_connection) authenticates the remote and honours its dialed_peer argument (exercised with real '
+               'handshakes, not modelled), timeouts fire (connection_open_timeout / the dial deadline are the model events '
+               '"attempt failed" / EExpire; 3% of the transport-stream cases and the stored timeout cases '
+               '(corpus/C05/tcp_timeouts.case, ws_transport.case) run with a 250 ms timeout and end one future at a time by '
+               'waiting, all other cases use 60 s timeouts that never fire), tokio wakes ready futures, the OS delivers socket '
+               'events, the listener does not terminate; the composition of the TCP model with the manager model is PROVED '
+               '(C05_sys_*) for configurations with TCP as the only installed transport; in it the owner hygiene caller_ok of '
+               'the TCP theorems is discharged (the manager draws every id it passes to open / dial from the shared counter '
+               'right before the call, at most one such call per step: Mgr/Calls.v), the glue is part of the statement: all '
+               'addresses of one open / dial call name the dialled peer (every stored address ends in /p2p/<peer>; C10), a dial '
+               "address that passed the manager's shape check parses in TCP (valid = true), a failure event carries an address "
+               "of the call (the peer is read from the TCP ledger's g_att), one poll = poll_next until Pending with the manager "
+               'handling the batch in order (the granularity at which the TCP model is tied to tcp/mod.rs); the same composition '
+               'is proved for any ONE installed transport (C05_sysT_*, e.g. WebSocket alone); for TWO transports installed at '
+               'the same time (one connection id opened on both) the COMPOSITION is not proved: it needs one instance of the '
+               "transport model per transport with the shared counter kept in step, the manager's negotiate ledger split by "
+               "transport and the coupling lemmas redone with calls to and events of the other transport; the manager's theorems "
+               'then rest on `feas` as an assumption about the pair, although each transport model satisfies its own contract '
+               '(C05_tr_*); "accept futures succeed" is still an assumption; QUIC: the code tells a dialed from an accepted '
+               'connection by its pending_dials entry (TCP / WebSocket carry the endpoint inside the negotiated connection); the '
+               "model's endpoint direction is TCP's, the two coincide for an owner that draws its ids (invariant c_conn_dial), "
+               "so the QUIC stream keeps to such owners and the dump maps QUIC's pending_dials to the model's plus the ids of "
+               'pending negotiate futures; QUIC has no log line for a failed inbound handshake (that mark is not compared for '
+               'QUIC); which of the addresses of an open are in flight at a time (max_parallel_dials / buffer_unordered; QUIC: '
+               'all) is not modelled: the model lets the environment answer any attempt that is left, a superset; /wss: the TLS '
+               'layer is environment (exercised against a plain listener: the attempt fails; F-C05g); the transport models are '
+               "proved one at a time (the multi-transport Opening is the manager model's side).",
  'trusted_base': ['transport contract of the feasible manager stream: open/dial/negotiate calls succeed, each is answered once '
-                  'unless cancelled, the reported peer is the dialled one: for TCP proved for the model coq/Tcp (C05_tcp_* '
-                  'theorems) and tied to the code by the TCP stream; what remains trusted for TCP: noise/yamux negotiation '
-                  'authenticates the remote and compares it with dialed_peer, timeouts fire, tokio, the OS; accept futures '
-                  'succeed (assumed)',
+                  'unless cancelled, the reported peer is the dialled one: for TCP, WebSocket and QUIC proved for the model '
+                  'coq/Tcp (C05_tcp_* / C05_tr_* / C05_ws_* / C05_quic_* theorems) and tied to the code by the transport streams '
+                  '(QUIC: thorough tier only); what remains trusted: noise/yamux negotiation authenticates the remote and '
+                  'compares it with dialed_peer, timeouts fire, tokio, the OS; accept futures succeed (assumed)',
                   'composition manager + TCP (C05_sys_*): proved for the two MODELS; the glue between them (which calls are '
                   'forwarded, what an event looks like to the manager, the shared counter) is a definition in '
                   'coq/C05/TcpCompose.v checked by a concrete composed history (C05_sys_history), not by a separate harness '
@@ -143,9 +191,23 @@ ENTRY = {'coq_dir': 'C05',
                   'reports the canonical address of its own kind (a real transport reports the addresses it was handed by the '
                   'manager)',
                   'TransportManagerHandle: the ChannelClogged / TaskClosed results of try_send are not driven by the harness '
-                  '(the channel never fills: every command is executed in the step that queued it)'],
- 'assumptions': ['two installed transports at most (TCP, WebSocket: cargo feature websocket on, quic off in the harness build)',
+                  '(the channel never fills: every command is executed in the step that queued it)',
+                  'multiaddress grammar and socket-address parsers of coq/C10/Model.v (tied to common/listener.rs and '
+                  'quic/listener.rs by the C10 stream); ws_url of coq/Tcp/Variants.v is a transcription of '
+                  'WebSocketTransport::multiaddr_into_url, tied by the WebSocket stream (dial results and attempt tables for '
+                  'every address shape the harness builds: own shape with and without /p2p, /wss, foreign, malformed)'],
+ 'assumptions': ['manager stream: two installed transports at most (TCP, WebSocket: cargo feature websocket on, quic off in the '
+                 'default harness build)',
                  'debug build: a reachable debug_assert!(false) shows up as a panic',
                  'fewer than MAX_ADDRESSES (64) distinct addresses per peer (no eviction from the address store; at most 40 '
                  'dial_address shapes per case)',
-                 'TCP stream: loopback sockets; a completion that does not show up within 20 s is recorded as a missing answer']}
+                 'transport streams: loopback sockets / UDP relay; a completion that does not show up within 20 s is recorded as '
+                 'a missing answer',
+                 'QUIC stream: only in the thorough tier (second harness build with --features quic); a failing QUIC attempt '
+                 'ends by its idle timeout, so failing answers are generated only in the short-timeout cases'],
+ 'aux_stream': {'tiers': ['thorough'],
+                'features': 'quic',
+                'target_dir': 'target-quic',
+                'args': '--only-transport 9002',
+                'cases': {'thorough': 300},
+                'corpus': 'corpus/C05-quic'}}
